@@ -95,6 +95,11 @@ fn run(ctx: &mut Ctx) {
     };
     let nq = thq.len() as u64;
     ctx.exhaustive("U3b x thresholds", u3b.subset_count() * nq, &|i| Case::new(u3b.subset(i / nq + 1), mk(thq[(i % nq) as usize].0, thq[(i % nq) as usize].1)), &case_fn);
+    // every single test case over {a,b} up to length 10 x 9 threshold pairs
+    let singles = Universe::words(&["a", "b"], ctx.tier.pick(10, 12));
+    let sth: Vec<(u32, u32)> = (1..=3).flat_map(|a| (1..=3).map(move |b| (a, b))).collect();
+    let ns = sth.len() as u64;
+    ctx.exhaustive("single test cases x 9 thresholds", singles.len() as u64 * ns, &|i| Case::new(vec![singles[(i / ns) as usize].clone()], mk(sth[(i % ns) as usize].0, sth[(i % ns) as usize].1)), &case_fn);
     // nested periods: (a^i b)^j c^k families
     let mut nested: Vec<Vec<String>> = vec![];
     for i in 1..=4usize {
